@@ -11,3 +11,6 @@ def run(ctx):
     read_input(ctx, ['read.io_error_fatal', 'read.process_err_propagates', 'read.write_err_propagates', 'read.nopanic'])
     stage_steps(ctx, want=('err',))
     limiter(ctx, {'err', 'nopanic'})
+    from ..scen_print import json_framing
+    from ..scen_text import text_layout
+    json_framing(ctx); text_layout(ctx)        # a failing write is returned as an error by both output processes
